@@ -378,7 +378,13 @@ class ECU(UDSClient):
         Sends a ping every 0.5s and waits at most timeout.
         If timeout is None, wait endlessly"""
         logger.info(f"Waiting for {timeout}s for ECU to respond")
-        if self.tester_present_task and self.tester_present_interval:
+        # Only a worker which is running is paused and restarted; one which was stopped stays stopped.
+        restart_tester_present = (
+            self.tester_present_task is not None
+            and not self.tester_present_task.done()
+            and bool(self.tester_present_interval)
+        )
+        if restart_tester_present:
             await self.stop_cyclic_tester_present()
 
         try:
@@ -388,7 +394,7 @@ class ECU(UDSClient):
             logger.critical("Timeout while waiting for ECU!")
             return False
         finally:
-            if self.tester_present_task and self.tester_present_interval:
+            if restart_tester_present and self.tester_present_interval:
                 await self.start_cyclic_tester_present(self.tester_present_interval)
 
     async def _tester_present_worker(self, interval: float) -> None:
